@@ -246,6 +246,80 @@ MUTANTS = [
 ]
 
 
+def rule_cursor_continuity(rep, u):
+    """R6: the CSV field cursor never skips input.  Every `start = X + delimiter.size()` in nextElement advances from the END of
+    what was consumed: X is the slice end of `element = line.substr(start, X - start)`, or the scan cursor of the quoted-field
+    loop, and then only on the edges where X is at the end of the line or exactly at a separator."""
+    from props.parallel_guard import cond_blocks, reach_without
+    fs = [f for f in u.functions if f.name == 'nextElement' and f.d.get('cls') == 'ReadStreamCSV' and not f.is_lambda]
+    if not fs:
+        rep.analysis_broken('ReadStreamCSV::nextElement not found')
+        return
+    f = fs[0]
+    cursor = f.d['params'][1]['name'] if len(f.d['params']) > 1 else 'start'
+    incremented = {strip(kids(m)[0], casts=True).get('name') for m in f.walk() if m['k'] == 'UnaryOperator' and m.get('op') in ('++', 'post++', 'pre++', '++post', '++pre')}
+    decl = {m['name']: m for m in f.walk() if m['k'] == 'VarDecl' and m.get('name')}
+    dom = pathflow.dominators(f)[0]
+    n = 0
+    for m in f.walk():
+        if not (m['k'] == 'BinaryOperator' and m.get('op') == '=' and strip(kids(m)[0], casts=True).get('name') == cursor):
+            continue
+        n += 1
+        inst = 'ReadStreamCSV::nextElement/advance#%d' % n
+        rhs = strip(kids(m)[1], casts=True)
+        x = None
+        if rhs['k'] == 'BinaryOperator' and rhs.get('op') == '+':
+            a, b = [strip(y, casts=True) for y in kids(rhs)]
+            if a['k'] == 'DeclRefExpr' and is_call(b, 'size') and expr_key(call_obj(b)).endswith('delimiter'):
+                x = a.get('name')
+        if x is None:
+            rep.ob('R6-cursor-continuity', inst, False, f.loc(m), 'the cursor is not advanced by `<end of field> + delimiter.size()` (%s)' % expr_key(rhs)[:80])
+            continue
+        # (a) slice end of the element just cut out
+        cut = [c for c in f.walk() if is_call(c, 'substr') and len(call_args(c)) == 2
+               and strip(call_args(c)[0], casts=True).get('name') == cursor
+               and expr_key(strip(call_args(c)[1], casts=True)).replace(' ', '').strip('()') in ('%s-%s' % (x, cursor), '-(%s,%s)' % (x, cursor))
+               and pathflow.executes_before(f, c['id'], m['id'], dom)]
+        if cut:
+            rep.ob('R6-cursor-continuity', inst, True, f.loc(m), 'advances from the slice end `%s` of the field cut out at %s' % (x, f.loc(cut[0])))
+            continue
+        # (b) scan cursor of the quoted-field loop: only at end of line or exactly at a separator
+        if x in incremented:
+            tb = pathflow.block_of(f, m['id'])
+            edges = set()
+            for b, c, core, neg in cond_blocks(f):
+                if core.get('k') != 'BinaryOperator' or core.get('op') not in ('==', '!='):
+                    continue
+                l, r = [strip(y, casts=True) for y in kids(core)]
+                names = {l.get('name'), r.get('name')}
+                if x not in names:
+                    continue
+                other = r if l.get('name') == x else l
+
+                def at_sep(o):
+                    if is_call(o, 'length') or is_call(o, 'size'):
+                        return expr_key(call_obj(o)).endswith('line')
+                    if is_call(o, 'find'):
+                        aa = call_args(o)
+                        return len(aa) == 2 and expr_key(strip(aa[0], casts=True)).endswith('delimiter') and strip(aa[1], casts=True).get('name') == x
+                    if o.get('k') == 'DeclRefExpr' and o.get('name') in decl and kids(decl[o['name']]):
+                        return at_sep(strip(kids(decl[o['name']])[0], casts=True))
+                    return False
+                if not at_sep(other):
+                    continue
+                eq_true = (core['op'] == '==') != neg        # does the CFG true-successor mean "x == other"?
+                dst = b['s'][0] if eq_true else b['s'][1]
+                if isinstance(dst, int):
+                    edges.add((b['b'], dst))
+            ok = bool(edges) and not reach_without(f, edges, [tb])
+            rep.ob('R6-cursor-continuity', inst, ok, f.loc(m), ('scan cursor `%s`, reachable only at end of line / exactly at a separator (%d guard edges)' % (x, len(edges))) if ok else
+                   'the cursor jumps past the quoted field although `%s` need not be at the end of the line or at a separator: text after the closing quote is silently dropped' % x)
+            continue
+        rep.ob('R6-cursor-continuity', inst, False, f.loc(m),
+               'the cursor advances from `%s`, which is neither the end of the field cut out by substr(%s, %s - %s) nor the quoted-field scan position: input between them is skipped' % (x, cursor, x, cursor))
+    rep.floor('R6-cursor-advances', n, 3)
+
+
 def analyse(rep):
     u, eng, syn, tc = facts.extract([
         (TU, r'souffle/io/[A-Za-z]+\.h$|utility/StringUtil\.h$', r'.*'),
@@ -259,6 +333,7 @@ def analyse(rep):
     rule_error_exit(rep, eng, syn)
     rule_line_info(rep, u)
     rule_program_constants(rep, tc)
+    rule_cursor_continuity(rep, u)
 
 
 def run(tier='quick'):
